@@ -90,17 +90,32 @@ class World:
                 changed.append(rel)
         return changed
 
+    def _dir_mtimes(self) -> dict[str, float]:
+        out = {}
+        for d, _, _ in os.walk(self.proj):
+            out[os.path.relpath(d, self.proj)] = os.stat(d).st_mtime
+        return out
+
     def snapshot_files(self) -> tuple[dict[str, str], dict[str, float]]:
-        return dict(self.files), dict(self.mt)
+        """(files, mtimes); directory mtimes are stored in the mtime map under 'dir:<rel>'."""
+        mt = dict(self.mt)
+        for d, t in self._dir_mtimes().items():
+            mt["dir:" + d] = t
+        return dict(self.files), mt
 
     def restore_files(self, snap: tuple[dict[str, str], dict[str, float]]) -> None:
-        """Put back exactly the tree of a snapshot, including every file's mtime."""
+        """Put back exactly the tree of a snapshot, including every file's and directory's mtime."""
         files, mt = snap
         for rel in sorted(set(self.files) - set(files)):
             self.delete(rel)
         for rel, text in sorted(files.items()):
             if self.files.get(rel) != text or self.mt.get(rel) != mt[rel]:
                 self.write(rel, text, mtime=mt[rel])
+        for key, t in mt.items():
+            if key.startswith("dir:"):
+                d = os.path.normpath(os.path.join(self.proj, key[4:]))
+                if os.path.isdir(d):
+                    os.utime(d, (t, t))
 
     def env(self) -> dict[str, Any]:
         return {"MYPYPATH": self.lib, "MYPY_TEST_PREFIX": kit.REPO, "MYPY_CACHE_DIR": None}
